@@ -206,7 +206,8 @@ def call_node(P, callee, star, dstar, pos=(), kws=(), two_stars=False):
 
 KILLERS = ('assign', 'augassign', 'delete', 'for_target', 'with_target', 'handover', 'subscript_store', 'method_call', 'read', 'comp_target',
            'nested_def_param', 'nonlocal_rebind', 'unrelated')
-CONTEXTS = ('expr', 'return', 'assign_value', 'if_body', 'try_body', 'with_body', 'listcomp', 'argument', 'lambda', 'nested_def', 'two_stars')
+CONTEXTS = ('expr', 'return', 'assign_value', 'if_body', 'try_body', 'with_body', 'listcomp', 'argument', 'lambda', 'nested_def', 'two_stars',
+            'nested_def_argument', 'lambda_argument')
 
 
 def killer_stmt(P, kind, z):
@@ -269,17 +270,20 @@ def build_program(P, context, killer, order, with_explicit=False):
         stmt = ast.Expr(value=ast.ListComp(elt=call, generators=[ast.comprehension(target=N('comp_local', ast.Store()), iter=ast.Constant(value=()), ifs=[], is_async=0)]))
     elif context == 'argument':
         stmt = ast.Expr(value=ast.Call(func=N('other_function'), args=[call], keywords=[]))
-    elif context == 'lambda':
+    elif context in ('lambda', 'lambda_argument'):
         lp = P.ident('lambda_param')
         inner_params = [lp]
-        lam = ast.Lambda(args=ast.arguments(posonlyargs=[], args=[ast.arg(arg=lp)], vararg=None, kwonlyargs=[], kw_defaults=[], kwarg=None, defaults=[]), body=call)
+        # (…_argument: the forwarding call is itself an argument of another call inside the nested scope)
+        lbody = call if context == 'lambda' else ast.Call(func=N('other_function'), args=[call], keywords=[])
+        lam = ast.Lambda(args=ast.arguments(posonlyargs=[], args=[ast.arg(arg=lp)], vararg=None, kwonlyargs=[], kw_defaults=[], kwarg=None, defaults=[]), body=lbody)
         stmt = ast.Assign(targets=[N('fn_local', ast.Store())], value=lam)
         site['nested'] = dict(params=inner_params, star_params=[])
-    elif context == 'nested_def':
+    elif context in ('nested_def', 'nested_def_argument'):
         ip = P.ident('inner_param')
         inner_params = [ip]
+        rv = call if context == 'nested_def' else ast.Call(func=N('other_function'), args=[], keywords=[ast.keyword(arg='key', value=call)])
         fd = ast.FunctionDef(name='inner', args=ast.arguments(posonlyargs=[], args=[ast.arg(arg=ip)], vararg=None, kwonlyargs=[], kw_defaults=[], kwarg=None, defaults=[]),
-                             body=[ast.Return(value=call)], decorator_list=[])
+                             body=[ast.Return(value=rv)], decorator_list=[])
         stmt = fd
         site['nested'] = dict(params=inner_params, star_params=[])
     else:
